@@ -1167,10 +1167,14 @@ func (d *Driver) Exec(opName string, a M) M {
 		form, hdr := url.Values{"grant_type": {string(oidc.GrantTypeTokenExchange)}}, http.Header{}
 		subj, actor := Sub(a, "subj"), Sub(a, "actor")
 		form.Set("subject_token", d.RefString(subj))
-		form.Set("subject_token_type", tokenTypeURN[S(subj, "declared")])
+		if S(subj, "declared") != "absent" {
+			form.Set("subject_token_type", tokenTypeURN[S(subj, "declared")])
+		}
 		if S(actor, "kind") != "none" && S(actor, "kind") != "" {
 			form.Set("actor_token", d.RefString(actor))
-			form.Set("actor_token_type", tokenTypeURN[S(actor, "declared")])
+			if S(actor, "declared") != "absent" { // a token sent without its type
+				form.Set("actor_token_type", tokenTypeURN[S(actor, "declared")])
+			}
 		}
 		if rq := S(a, "requested"); rq != "" {
 			form.Set("requested_token_type", tokenTypeURN[rq])
